@@ -405,10 +405,20 @@ type c06 struct {
 	// bsWarm is closed once the first bitswap client of the process has been set up alone
 	bsWarm     chan struct{}
 	bsWarmOnce sync.Once
+	// prop is the property the violations are reported for ("" = C06): C01 reuses the shrex part for
+	// its getter-level clause
+	prop string
+}
+
+func (c *c06) propID() string {
+	if c.prop != "" {
+		return c.prop
+	}
+	return "C06"
 }
 
 func (c *c06) violation(getter string, q *c06Req, what string, detail map[string]any) {
-	sig := fmt.Sprintf("C06 %s %s: %s", getter, c06KindNames[q.kind], what)
+	sig := fmt.Sprintf("%s %s %s: %s", c.propID(), getter, c06KindNames[q.kind], what)
 	if detail == nil {
 		detail = map[string]any{}
 	}
